@@ -49,7 +49,49 @@ func (n *node) ops(focus string) []op {
 		}
 	}
 	out = append(out, op{"refresh", ""}, op{"remove-invalid", ""}, op{"reopen", ""}, op{"rebuild-indexes", ""})
-	return out
+	if focus == "" {
+		return out
+	}
+	var kept []op
+	for _, o := range out {
+		if inFocus(focus, o) {
+			kept = append(kept, o)
+		}
+	}
+	return kept
+}
+
+// inFocus trims the alphabet per property to the operations its oracle can observe, so that the same budget reaches deeper:
+// rejected header mutations only matter to C04, rule-breaking block bodies to C01–C04, user injections to C05/C06.
+func inFocus(prop string, o op) bool {
+	hdr := o.Kind == "block" && (strings.HasPrefix(o.Arg, "hdr:") || strings.HasPrefix(o.Arg, "valid2:") || o.Arg == "signed-by-intruder" || o.Arg == "null-signature" ||
+		o.Arg == "sig-recid-flipped" || o.Arg == "genesis-again" || o.Arg == "head-again" || strings.Contains(o.Arg, "header-kept") || o.Arg == "no-transactions")
+	badBody := o.Kind == "block" && !hdr && !strings.HasPrefix(o.Arg, "valid")
+	switch prop {
+	case "C01", "C02", "C03":
+		return !hdr && o.Kind != "inject-user" && o.Kind != "rebuild-indexes"
+	case "C04":
+		if o.Kind == "inject-user" || o.Kind == "rebuild-indexes" || o.Kind == "refresh" {
+			return false
+		}
+		if o.Kind == "inject-foreign" {
+			return o.Arg == "pay-G-A" || o.Arg == "pay-G-B" || o.Arg == "pay-A-B" || o.Arg == "pay-G-L"
+		}
+		return true
+	case "C05":
+		return true
+	case "C06":
+		if o.Kind == "rebuild-indexes" {
+			return false
+		}
+		return !(hdr && o.Arg != "hdr:time=head:resigned") && !(badBody && o.Arg != "bad-txn[wrap-hour-sum-G]" && o.Arg != "double-spend-in-block[pay-G-A,pay-G-B]")
+	case "C07":
+		if o.Kind == "inject-user" {
+			return false
+		}
+		return !hdr && !(badBody && o.Arg != "bad-txn[wrap-hour-sum-G]")
+	}
+	return true
 }
 
 func injectClass(softErr *transaction.ErrTxnViolatesSoftConstraint, err error) string {
@@ -75,6 +117,13 @@ func (n *node) apply(o op, check bool, fail failer) string {
 	if !(strings.HasPrefix(oc, "inject:hard") || strings.HasPrefix(oc, "inject:user") || strings.HasPrefix(oc, "block:rejected") || oc == "publish:none" || oc == "n/a" ||
 		o.Kind == "inject-user" && strings.HasPrefix(oc, "inject:soft")) {
 		n.txCache, n.bkCache, n.bkDone = nil, nil, false
+		// the cheap state oracles (unspent set, coin sum, stored chain, pool) are evaluated right after every operation that may
+		// have changed the state, so a divergence is seen at the transition that causes it (the full view oracle of C07 runs per state)
+		if check && n.M != nil && n.DB != nil {
+			n.checkState(func(props, sig, format string, a ...interface{}) {
+				fail(props, sig, "after "+o.String()+": "+format, a...)
+			}, false)
+		}
 	}
 	return oc
 }
